@@ -26,4 +26,4 @@ for c in $CHECKS; do
   res="$res $c:rc=$rc,violations=$nv"
 done
 echo "$ID/$N: demo-on-clean=$([ $demo_clean -eq 0 ] && echo pass || echo FAIL) build=$([ $build -eq 0 ] && echo ok || echo FAIL) repo-tests=$([ $tests -eq 0 ] && echo pass || echo FAIL) demo-with-change=$([ $demo_changed -ne 0 ] && echo fails || echo PASSES) checks:$res"
-git -C /repo worktree remove --force $S; rm -rf /verif/.bin/gotsmc-* /verif/.bin/alt-*
+git -C /repo worktree remove --force $S; T=$(echo "$S" | md5sum | cut -c1-10); rm -rf /verif/.bin/gotsmc-$T /verif/.bin/alt-$T.mod
